@@ -208,6 +208,29 @@ pub fn run(cfg: &Cfg) -> Stats {
             }
             idx += n;
         }
+        // every colour value: all 256 indices and all 256 values of each RGB component, for each target and spelling
+        let mut kk = 0u64;
+        for target in [38u32, 48, 58] {
+            for sep in [';', ':'] {
+                for v in 0..=255u32 {
+                    kk += 1;
+                    if kk % n != shard {
+                        continue;
+                    }
+                    let a = (v * 7 + 13) % 256;
+                    let b = (v * 31 + 101) % 256;
+                    let cases = [
+                        format!("\x1b[{target}{sep}5{sep}{v}mX"),
+                        format!("\x1b[1mP\x1b[{target}{sep}2{sep}{v}{sep}{a}{sep}{b}mX\x1b[3mY"),
+                        format!("\x1b[{target}{sep}2{sep}{a}{sep}{v}{sep}{b}mX"),
+                        format!("\x1b[4mQ\x1b[{target}{sep}2{sep}{b}{sep}{a}{sep}{v};7mX"),
+                    ];
+                    for c in cases {
+                        eval(c.as_bytes(), &[], &mut st, true, "colour-values");
+                    }
+                }
+            }
+        }
         // generated texts, one-shot and under chunkings
         let mut i = shard;
         while i < ntext {
@@ -233,6 +256,7 @@ pub fn run(cfg: &Cfg) -> Stats {
         }
         st
     });
+    st.exhaustive_parts.push("all 256 indexed values and all 256 values of each RGB component for fg / bg / underline colour in both ';' and ':' spellings".into());
     st.exhaustive_parts.push(format!(
         "all single SGR sequences of <= {depth} attribute groups over a {}-group representative set, from 3 start states (sequences selecting two underline styles in one epoch excluded, DESIGN 8.4)",
         GROUPS.len()
